@@ -23,6 +23,10 @@ type snapshot struct {
 type hstate struct {
 	views []view.View
 	tys   []*Ty
+	// index-based iterators (Iter()) opened on handles: elements come out as new handles
+	iters    []elemIter
+	iterTys  []*Ty
+	iterNext []uint64
 	snaps []snapshot
 	h     tree.HashFn
 	count *int
@@ -99,7 +103,7 @@ func (o hop) Sexp() string {
 	switch o.kind {
 	case "get", "elem":
 		return fmt.Sprintf("(%s %d %s)", o.kind, o.h, hx(o.i))
-	case "uvalue", "copy", "pop", "htr", "ser", "blen", "len", "sel", "snap", "count":
+	case "uvalue", "copy", "pop", "htr", "ser", "blen", "len", "sel", "snap", "count", "iter", "next":
 		return fmt.Sprintf("(%s %d)", o.kind, o.h)
 	case "memo":
 		return "(memo)"
@@ -129,6 +133,25 @@ func valueSexp(v view.View) string {
 
 func (s *hstate) exec(o hop) string {
 	return guard(func() string {
+		if o.kind == "next" {
+			// the next element of iterator o.h, as a new handle
+			if o.h >= len(s.iters) {
+				return "ERR"
+			}
+			i := s.iterNext[o.h]
+			el, ok, err := s.iters[o.h].Next()
+			if !ok {
+				if err != nil {
+					return "ERR"
+				}
+				return "END"
+			}
+			s.iterNext[o.h] = i + 1
+			if err != nil {
+				return "ERR"
+			}
+			return s.push(elemTyOf(s.iterTys[o.h], i), el)
+		}
 		if o.kind != "new" && o.kind != "memo" && o.h >= len(s.views) {
 			return "ERR"
 		}
@@ -141,6 +164,22 @@ func (s *hstate) exec(o hop) string {
 			return "ERR"
 		}
 		switch o.kind {
+		case "iter":
+			var it elemIter
+			switch x := vw.(type) {
+			case *view.ComplexVectorView:
+				it = x.Iter()
+			case *view.ComplexListView:
+				it = x.Iter()
+			case *view.ContainerView:
+				it = x.Iter()
+			default:
+				return "ERR"
+			}
+			s.iters = append(s.iters, it)
+			s.iterTys = append(s.iterTys, t)
+			s.iterNext = append(s.iterNext, 0)
+			return fmt.Sprintf("OK_i%d", len(s.iters)-1)
 		case "get":
 			var el view.View
 			var err error
@@ -498,6 +537,7 @@ type histGen struct {
 	counts      bool // C07: count ops (inserted values are pre-hashed handles or basic literals)
 	memos       bool // C06
 	useDefaults bool // C14: insert Default(nil) views of composite types
+	iters       bool // sub-views also through Iter(): (iter h) opens one, (next k) advances it
 }
 
 func currentLen(v view.View, t *Ty) uint64 {
@@ -563,6 +603,14 @@ func (hg *histGen) next(s *hstate) hop {
 		return uint64(r.Int63n(int64(n)))
 	}
 	c := r.Intn(100)
+	if hg.iters {
+		switch x := r.Intn(100); {
+		case x < 5 && (t.Kind == "vec" || t.Kind == "list" || t.Kind == "cont") && !isPackedOrBits(t):
+			return hop{kind: "iter", h: h}
+		case x < 16 && len(s.iters) > 0:
+			return hop{kind: "next", h: r.Intn(len(s.iters))}
+		}
+	}
 	switch {
 	case c < 50: // mutation
 		switch t.Kind {
